@@ -60,8 +60,14 @@ func (g *gateParser) Read(path string) (map[string]string, error) {
 	w.window("pre", w.plan.pre)
 	m, err := g.inner.Read(path)
 	if err != nil {
-		w.fail = "the library's parser failed: " + err.Error()
-		panic(w.fail)
+		if !w.gone {
+			w.fail = "the library's parser failed: " + err.Error()
+			panic(w.fail)
+		}
+		// the file vanished after the stat: the reload gets the parser's error
+		w.t.Emit(core.Ev{"ev": "RlParseFail", "err": err.Error()})
+		w.inParse, w.aborted = false, true
+		return nil, err
 	}
 	keys := make([]string, 0, len(m))
 	for k := range m {
@@ -88,7 +94,7 @@ func (w *world) window(tag string, acts []func()) {
 
 // poll runs f (the constructor or ReloadNowForVerif) with the plan; false = it panicked
 func (w *world) poll(kind string, plan pollPlan, f func(), conf func() config.Config) bool {
-	w.plan, w.polling, w.inParse, w.entered, w.applied, w.notified = plan, true, false, false, false, false
+	w.plan, w.polling, w.inParse, w.entered, w.applied, w.notified, w.aborted = plan, true, false, false, false, false, false
 	msg := core.Guard(f)
 	w.polling, w.applied = false, false
 	if w.fail != "" {
@@ -100,6 +106,9 @@ func (w *world) poll(kind string, plan pollPlan, f func(), conf func() config.Co
 	}
 	if w.entered {
 		kind = "RlEnd"
+	}
+	if w.aborted {
+		kind = "RlAbort"
 	}
 	w.t.Emit(core.Ev{"ev": kind, "snap": snapshot(conf()), "notes": w.takeNotes()})
 	return true
@@ -214,9 +223,32 @@ func histIlv(c *core.Ctx, t *core.Trace, gen string, cas int, md wbMode) {
 		excl = []string{"license", plainKey(r)}
 	}
 	nobs := r.Intn(3)
-	inside := 0 // edits and write-backs that fell inside a reload
-	act := func() func() {
-		switch x := r.Intn(10); {
+	w.wantOb = nobs > 0 || r.Intn(2) == 0
+	w.drawEnv()
+	w.startGone = r.Intn(16) == 0
+	inside := 0 // edits, deletions and write-backs that fell inside a reload
+	// tag: the window ("pre": after the stat, "post": after the parse, "ntf": inside the notification)
+	act := func(tag string) func() {
+		switch x := r.Intn(14); {
+		case x == 10:
+			// the file is taken away.  Between the stat and the read only if the parser survives it.
+			return func() {
+				if w.gone || (tag == "pre" && !w.noFatal) {
+					return
+				}
+				w.deleteFile()
+				inside++
+			}
+		case x == 11:
+			return func() { w.envChange() }
+		case x >= 12:
+			// the registry is written while the reload is under way (not from inside a callback:
+			// a map written while it is iterated may or may not show the new entry)
+			return func() {
+				if w.ob != nil && tag != "ntf" {
+					w.addObs()
+				}
+			}
 		case x < 6:
 			return func() {
 				w.sig = append(w.sig, w.mutate(md.exoticKeys, md.forms, md.plainVals, false))
@@ -242,20 +274,20 @@ func histIlv(c *core.Ctx, t *core.Trace, gen string, cas int, md wbMode) {
 			}
 		}
 	}
-	win := func() []func() {
+	win := func(tag string) []func() {
 		var a []func()
 		if r.Intn(2) == 0 {
 			return a
 		}
 		for n := 1 + r.Intn(2); n > 0; n-- {
-			a = append(a, act())
+			a = append(a, act(tag))
 		}
 		return a
 	}
 	plan := func() pollPlan {
-		p := pollPlan{pre: win(), post: win()}
-		if nobs > 0 {
-			p.notify = win()
+		p := pollPlan{pre: win("pre"), post: win("post")}
+		if w.wantOb {
+			p.notify = win("ntf")
 		}
 		return p
 	}
@@ -270,7 +302,12 @@ func histIlv(c *core.Ctx, t *core.Trace, gen string, cas int, md wbMode) {
 	}
 	for i, polls := 0, 2+r.Intn(4); i < polls; i++ {
 		// between two polls: usually an edit (so that the next poll goes on to parse), sometimes none
-		if r.Intn(4) > 0 {
+		switch x := r.Intn(8); {
+		case x == 0 && !w.gone:
+			w.deleteFile()
+		case x == 1 && w.ob != nil:
+			w.addObs()
+		case x < 7:
 			w.sig = append(w.sig, w.mutate(md.exoticKeys, md.forms, md.plainVals, false))
 			w.bump(r.Intn(3) > 0)
 			w.edit()
@@ -279,6 +316,11 @@ func histIlv(c *core.Ctx, t *core.Trace, gen string, cas int, md wbMode) {
 		w.someGets(r.Intn(3))
 	}
 	// the file stops changing: whatever fell inside the reloads above must now become visible
+	if w.gone && r.Intn(2) == 0 {
+		w.sig = append(w.sig, w.mutate(md.exoticKeys, md.forms, md.plainVals, false))
+		w.bump(true)
+		w.edit()
+	}
 	reload(pollPlan{})
 	w.someGets(2 + r.Intn(2))
 	reload(pollPlan{})
